@@ -81,6 +81,9 @@ def apply_edits(rec, edits):
         if col is None:
             continue
         ecls = col.__column_class__() if isinstance(col, CT.SequenceOfValuesColumn) else None
+        if isinstance(vals, dict):        # an edit of api_touch_wide: one encoded value (a list value is {"t": "list", ...})
+            col.value = dec_api_value(vals, col, ecls)
+            continue
         out = []
         for v in vals:
             if v.get("t") == "enum" and ecls is not None and issubclass(ecls, CT.EnumColumn):
@@ -90,15 +93,127 @@ def apply_edits(rec, edits):
         col.value = out
 
 
+# Input families on which the unchanged library violates the property (reported, not repaired): skipped for now.
+#   "int-rendering-is-null-spelling": a non-null value assigned through the API whose rendering is one of the column's null
+#       spellings: Entrez_Gene_Id (EntrezGeneId, nullable dict {"0": None}) holding the integer 0 validates without error,
+#       a Strict writer emits "0", and every reader returns None for it: typed values differ after the round trip.
+PENDING_DEFECTS = {"int-rendering-is-null-spelling": False}
+
+
+def pending_defect_value(col):
+    """The value the column now holds is in a PENDING_DEFECTS family."""
+    if PENDING_DEFECTS.get("int-rendering-is-null-spelling"):
+        nd = type(col).__nullable_dict__() or {}
+        try:
+            text = col.__string_it__()
+        except Exception:  # noqa
+            return False
+        if text in nd and not (nd[text] == col.value and type(nd[text]) is type(col.value)):
+            return True
+    return False
+
+
+AWKWARD_FLOATS = [10 / 30, 2 / 3, 0.1 + 0.2, 1.1 * 3, 1e-07, 123456.789, 5e-324, 1.7976931348623157e308, 2.0 ** 53 + 2, 1e22, 1e23,
+                  0.1, -0.0, 0.0, 1.0, 100.0, 1e16, 1.5e-10, 4.35, 0.1 * 3, 1 / 3 * 1e-5, 2.2250738585072014e-308, 9007199254740993.0,
+                  0.30000000000000004, 0.29999999999999993, 1e15 + 0.3, -123456789.12345679]
+SORT_COLUMNS = ("Chromosome", "Start_Position", "End_Position", "Tumor_Sample_Barcode", "Matched_Norm_Sample_Barcode")
+
+
+def api_value(cls, rng):
+    """A typed value for a column of class `cls`, as a caller computing it would assign it (never text to be parsed):
+    the awkward corners of each type.  None = this class is left alone."""
+    import uuid
+    import maflib.column_types as CT
+    nullable = cls.__nullable_dict__() or {}
+    if nullable and rng.random() < 0.15:
+        return rng.choice(list(nullable.values()))
+    if issubclass(cls, CT.SequenceOfValuesColumn):
+        ecls = cls.__column_class__()
+        n = rng.choice([0, 1, 1, 2, 3])
+        if issubclass(ecls, CT.EnumColumn):
+            members = [m for m in ecls.__enum_class__() if str(m.value) != "" and m.name != "Null"]
+            return [rng.choice(members) for _ in range(n)]
+        if issubclass(ecls, CT.IntegerColumn):
+            return [rng.choice([0, 1, 7, 42, 2 ** 40]) for _ in range(n)]
+        if issubclass(ecls, CT.NullableStringColumn):
+            return [rng.choice(["a", "b c", "x.y", "é", "p.Val600Glu"]) for _ in range(n)]
+        return None
+    if issubclass(cls, CT.FloatColumn):
+        k = rng.random()
+        if k < 0.5:
+            return rng.choice(AWKWARD_FLOATS)
+        if k < 0.7:
+            return rng.random()
+        if k < 0.85:
+            return rng.uniform(-1e6, 1e6)
+        return rng.random() * 10.0 ** rng.randrange(-300, 300)
+    if issubclass(cls, CT.IntegerColumn):
+        return rng.choice([0, 1, 2, 7, 42, 12345, 2 ** 31, 2 ** 63, 10 ** 20])
+    if issubclass(cls, CT.UUIDColumn):
+        return uuid.UUID(int=rng.getrandbits(128))
+    if issubclass(cls, CT.EnumColumn):
+        return rng.choice(list(cls.__enum_class__()))
+    if issubclass(cls, CT.BooleanColumn):
+        return rng.choice([True, False])
+    if issubclass(cls, CT.NullableDnaString):
+        return rng.choice(["A", "ACGT", "-", "TTTTTTTTTT", "N"])
+    if issubclass(cls, CT.NullableStringColumn):
+        return rng.choice(["a", "b c", "x.y", "é", "p.Val600Glu", "c.1799T>A", " lead", "#x", "7", "None"])
+    return None
+
+
+def api_touch_wide(rec, rng, scheme, p=0.25):
+    """Assign typed values computed by the caller to some columns of any type (floats with long reprs, big integers,
+    empty and one-element lists, enum members, UUID objects, booleans, None for nullable columns).  An assignment the
+    column's own validation refuses is taken back (such a record is not one the writer accepts: outside the property).
+    The columns a sort order reads are left alone.  -> the edits made: [[column name, encoded value], ...]"""
+    edits = []
+    for col in list(rec.values()):
+        if col is None or col.key in SORT_COLUMNS or rng.random() >= p:
+            continue
+        cls = scheme.column_class(col.key)
+        if cls is None or not isinstance(col, cls):
+            continue
+        v = api_value(cls, rng)
+        if v is None and None not in (cls.__nullable_dict__() or {}).values():
+            continue
+        old = col.value
+        col.value = v
+        try:
+            bad = bool(col.validate(scheme=scheme)) or any(c in str(col) for c in "\t\r\n")
+        except Exception:  # noqa
+            bad = True
+        if bad or pending_defect_value(col):
+            col.value = old
+            continue
+        edits.append([col.key, enc_val(v)])
+    return edits
+
+
+def dec_api_value(j, col, ecls=None):
+    """Decode an encoded API value for column `col` (enum members are looked up in the column's own enum class)."""
+    import maflib.column_types as CT
+    if j.get("t") == "list":
+        return [dec_api_value(x, col, ecls) for x in j["v"]]
+    if j.get("t") == "enum":
+        holder = ecls if ecls is not None else type(col)
+        if issubclass(holder, CT.EnumColumn):
+            return holder.__enum_class__()[j["m"]]
+    return impl.dec_val(j)
+
+
 class Toucher:
     """API edits of the records offered to the writer: drawn from `rng` (and logged) in a run, or the
-    stored ones (per record, in order) in a replay."""
+    stored ones (per record, in order) in a replay.  `wide`: values of every column type (api_touch_wide)
+    instead of list values only (api_touch)."""
 
-    def __init__(self, rng=None, stored=None):
-        self.rng, self.stored, self.log = rng, stored, []
+    def __init__(self, rng=None, stored=None, wide=None):
+        self.rng, self.stored, self.log, self.wide = rng, stored, [], wide
 
     def __call__(self, k, rec):
-        if self.rng is not None:
+        if self.rng is not None and self.wide is not None:
+            self.log.append(api_touch_wide(rec, self.rng, self.wide))
+        elif self.rng is not None:
             self.log.append(api_touch(rec, self.rng))
         else:
             edits = self.stored[k] if k < len(self.stored) else []
@@ -134,7 +249,44 @@ def make_derived_header(ann, how):
     return h, ["#version gdc-1.0.0", "#annotation.spec " + ann, "#center x"]
 
 
-def write_file(channel, header_lines, recs, scheme, names, mode, tmp, header_obj=None, touch=None):
+def api_record(names, row):
+    """A scheme-less record assembled through the API: MafRecord() + MafColumnRecord(name, value, index) per column."""
+    from maflib.column import MafColumnRecord
+    from maflib.record import MafRecord
+    rec = MafRecord()
+    for k, (n, v) in enumerate(zip(names, row)):
+        rec.add(MafColumnRecord(n, impl.dec_val(v), k))
+    return rec
+
+
+def not_canonical(col):
+    """The value the column holds is not what parsing the column's own text gives (another value or another type):
+    type(col).build(name, str(col)).value != col.value.  Only values assigned through the API can be so."""
+    if col is None:
+        return False
+    try:
+        c2 = type(col).build(name=col.key, value=str(col))
+        return bool(c2.value != col.value or type(c2.value) is not type(col.value))
+    except Exception:  # noqa
+        return True
+
+
+def diff_position(a_lines, b_lines):
+    """(index of the first differing line, index of its first differing field) of two lists of tab-separated lines."""
+    for j, (a, b) in enumerate(zip(a_lines, b_lines)):
+        if a != b:
+            fa, fb = a.split("\t"), b.split("\t")
+            for k, (x, y) in enumerate(zip(fa, fb)):
+                if x != y:
+                    return j, k
+            return j, min(len(fa), len(fb))
+    return (min(len(a_lines), len(b_lines)), None) if len(a_lines) != len(b_lines) else (None, None)
+
+
+def write_file(channel, header_lines, recs, scheme, names, mode, tmp, header_obj=None, touch=None, api_rows=None):
+    """`recs`: the lines the offered records are parsed from - or, with `api_rows` (scheme-less), ignored: the records
+    are assembled from the rows of encoded values.  Channels: plain / gz (MafWriter.from_path), handle (MafWriter.from_fd
+    on a caller handle), ctor (the MafWriter constructor on a caller handle)."""
     from maflib.header import MafHeader
     from maflib.record import MafRecord
     from maflib.validation import ValidationStringency as VS
@@ -142,23 +294,29 @@ def write_file(channel, header_lines, recs, scheme, names, mode, tmp, header_obj
     h = header_obj if header_obj is not None else MafHeader.from_lines(header_lines, validation_stringency=VS.Silent)
     path = os.path.join(tmp, "f.maf" + (".gz" if channel == "gz" else ""))
     written = []
-    if channel == "handle":
+    noncanon = []
+    if channel in ("handle", "ctor"):
         buf = io.StringIO()
         keep = {}
         orig_close = buf.close
         buf.close = lambda: keep.setdefault("text", buf.getvalue())
-        w = MafWriter.from_fd(buf, h, validation_stringency=mode)
+        w = MafWriter.from_fd(buf, h, validation_stringency=mode) if channel == "handle" else MafWriter(buf, h, validation_stringency=mode)
     else:
         w = MafWriter.from_path(path, h, validation_stringency=mode)
-    for k, line in enumerate(recs):
-        rec = MafRecord.from_line(line, scheme=scheme, column_names=names, validation_stringency=VS.Silent)
+    for k, line in enumerate(recs if api_rows is None else api_rows):
+        if api_rows is not None:
+            rec = api_record(names, line)
+        else:
+            rec = MafRecord.from_line(line, scheme=scheme, column_names=names, validation_stringency=VS.Silent)
         if touch is not None:
             touch(k, rec)
         written.append((str(rec), [enc_val(v) for v in rec.column_values()]))
+        noncanon.append([not_canonical(c) for c in rec.values()] if (touch is not None and scheme is not None) else None)
         w += rec
     w.close()
     write_file.last_written = written
-    if channel == "handle":
+    write_file.last_noncanonical = noncanon
+    if channel in ("handle", "ctor"):
         return keep["text"], None
     if channel == "gz":
         with gzip.open(path, "rt") as f:
@@ -171,7 +329,7 @@ def write_file(channel, header_lines, recs, scheme, names, mode, tmp, header_obj
 
 def read_back(channel, text, path, mode):
     from maflib.reader import MafReader
-    if channel == "handle":
+    if channel in ("handle", "ctor"):
         rd = MafReader(lines=io.StringIO(text), validation_stringency=mode)
     else:
         rd = MafReader.reader_from(path, validation_stringency=mode)
@@ -181,39 +339,276 @@ def read_back(channel, text, path, mode):
     return hdr, rd.scheme().column_names() if rd.scheme() else None, recs, rd
 
 
+READ_ROUTES = ["list", "list-nl", "iter", "handle", "path", "gz", "open-file"]
+
+
+def read_back_via(route, text, tmp, mode):
+    """The written text read by another public way of opening a reader than the channel's own: MafReader over the list
+    of its lines (bare / with their LF), a generator, a text handle, an open file object; reader_from on a plain / .gz
+    copy of it."""
+    from maflib.reader import MafReader
+    lines = text.split("\n")
+    if lines and lines[-1] == "":
+        lines.pop()
+    closeable = None
+    if route == "list":
+        rd = MafReader(lines=lines, validation_stringency=mode)
+    elif route == "list-nl":
+        rd = MafReader(lines=[l + "\n" for l in lines], validation_stringency=mode)
+    elif route == "iter":
+        rd = MafReader(lines=(l for l in lines), validation_stringency=mode)
+    elif route == "handle":
+        rd = MafReader(lines=io.StringIO(text), validation_stringency=mode)
+    else:
+        path = os.path.join(tmp, "copy.maf" + (".gz" if route == "gz" else ""))
+        if route == "gz":
+            with gzip.open(path, "wt", newline="", encoding="utf-8") as f:
+                f.write(text)
+        else:
+            with open(path, "w", newline="", encoding="utf-8") as f:
+                f.write(text)
+        if route == "open-file":
+            closeable = open(path, "r", newline="\n", encoding="utf-8")
+            rd = MafReader(lines=closeable, closeable=closeable, validation_stringency=mode)
+        else:
+            rd = MafReader.reader_from(path, validation_stringency=mode)
+    hdr = [(k, str(rd.header()[k])) for k in rd.header()]
+    recs = list(rd)
+    rd.close()
+    return hdr, rd.scheme().column_names() if rd.scheme() else None, recs, rd
+
+
 NO_SCHEME_NAMES = ["Hugo_Symbol", "Chromosome", "Start_Position", "End_Position", "c5", "c6"]
+
+
+# ------------------------------------------------------------------ headers by every public route
+EXTRA_PRAGMAS = ["#center broad.mit.edu", "#note several words here", "#n.samples 4", "#weird  two  blanks", "#x:y z=1;2", "#tab\tkey v\tw",
+                 "#unicode Ünï cødé", "#k #v", "#url http://x/y?z=1", "#filedate 2020-01-01"]
+CONTIG_LISTS = [["chr1", "chr2", "chr10"], ["1", "2", "10", "X"], ["chr2", "chr1", "chrX"], ["chrM"]]
+ORDERS = [None, None, "Unsorted", "Unknown", "Coordinate", "Coordinate", "BarcodesAndCoordinate"]
+HEADER_ROUTES = ["assembled", "assembled-ctor", "defaults", "defaults-fai", "from_reader", "line_reader", "from_lines"]
+
+
+def _pragma_record(line, contigs=None, ctor=False):
+    """One header record: parsed from its line, or (ctor) made with the record classes' own constructors."""
+    from maflib.header import (MafHeader, MafHeaderAnnotationSpecRecord, MafHeaderContigRecord, MafHeaderRecord,
+                               MafHeaderSortOrderRecord, MafHeaderVersionRecord)
+    if not ctor:
+        rec, err = MafHeaderRecord.from_line(line)
+        assert err is None, line
+        return rec
+    key, value = line[1:].split(" ", 1)
+    if key == MafHeader.VersionKey:
+        return MafHeaderVersionRecord(value=value)
+    if key == MafHeader.AnnotationSpecKey:
+        return MafHeaderAnnotationSpecRecord(value=value)
+    if key == MafHeader.SortOrderKey:
+        return MafHeaderSortOrderRecord(value=value, contigs=list(contigs) if contigs else None)
+    if key == MafHeader.ContigKey:
+        return MafHeaderContigRecord(value=value.split(","))
+    return MafHeaderRecord(key=key, value=value)
+
+
+def build_header(spec, tmp):
+    """The header object of a case, obtained by the public route the spec names:
+      assembled / assembled-ctor  MafHeader() + header[key] = record, in the order of spec["lines"]
+      from_lines / line_reader    MafHeader.from_lines(lines) / MafHeader.from_line_reader(LineReader over the text)
+      defaults / defaults-fai     MafHeader.from_defaults(version, annotation, sort_order (name or object), contigs or a
+                                  .fai file) + the extra pragmas set afterwards
+      from_reader                 MafHeader.from_reader(reader over spec["src"] + a column line, overrides) + extras"""
+    from maflib.header import MafHeader
+    from maflib.reader import MafReader
+    from maflib.util import LineReader
+    from maflib.validation import ValidationStringency as VS
+    route = spec["route"]
+    if route in ("assembled", "assembled-ctor"):
+        contigs = next((l.split(" ", 1)[1].split(",") for l in spec["lines"] if l.startswith("#contigs ")), None)
+        h = MafHeader()
+        for l in spec["lines"]:
+            rec = _pragma_record(l, contigs, ctor=(route == "assembled-ctor"))
+            h[rec.key] = rec
+        return h
+    if route == "from_lines":
+        return MafHeader.from_lines(list(spec["lines"]), validation_stringency=VS.Silent)
+    if route == "line_reader":
+        text = "".join(l + "\n" for l in spec["lines"]) + "not a header line\n"
+        return MafHeader.from_line_reader(LineReader(io.StringIO(text)), validation_stringency=VS.Silent)
+    so = spec.get("sort_order")
+    if so is not None and spec.get("sort_as") == "object":
+        so = SC.order_obj(so, None)
+    kw = {"version": spec.get("version"), "annotation": spec.get("annotation"), "sort_order": so}
+    if route in ("defaults-fai", "from_reader") and spec.get("fai"):
+        fai = os.path.join(tmp, "ref.fa.fai")
+        with open(fai, "w") as f:
+            f.write("".join("%s\t%d\t%d\t60\t61\n" % (c, 1000 + k, 7 * k) for k, c in enumerate(spec["fai"])))
+        kw["fasta_index"] = fai
+    elif spec.get("contigs"):
+        kw["contigs"] = list(spec["contigs"])
+    if route in ("defaults", "defaults-fai"):
+        h = MafHeader.from_defaults(**kw)
+    elif route == "from_reader":
+        src_scheme = MafHeader.from_lines(list(spec["src"]), validation_stringency=VS.Silent).scheme()
+        col = "\t".join(src_scheme.column_names()) if src_scheme is not None else "\t".join(NO_SCHEME_NAMES)
+        reader = MafReader(lines=list(spec["src"]) + [col], validation_stringency=VS.Silent)
+        h = MafHeader.from_reader(reader, **kw)
+    else:
+        raise ValueError("unknown header route %r" % route)
+    for l in spec.get("extra", []):
+        rec = _pragma_record(l)
+        h[rec.key] = rec
+    return h
+
+
+def gen_header_spec(rng, ann):
+    """A header over the pragma grammar (version / annotation as the layout needs - or an unrecognised pair for a scheme-less
+    file -, optional sort order and contig list in any relative position, other pragmas around them) and the route it
+    reaches the writer by."""
+    sch = impl.scheme_by_annotation(ann) if ann else None
+    if sch is not None:
+        version, annotation = sch.version(), (None if sch.is_basic() else ann)
+    else:
+        version, annotation = rng.choice([("gdc-1.0.0", "lab-own-spec"), ("gdc-1.0.0", "lab-own-spec"), (None, None), ("my-1.0", None)])
+    order = rng.choice(ORDERS)
+    contigs = rng.choice(CONTIG_LISTS) if rng.random() < (0.7 if order in ("Coordinate", "BarcodesAndCoordinate") else 0.25) else None
+    extra = rng.sample(EXTRA_PRAGMAS, rng.randrange(0, 4))
+    route = rng.choice(HEADER_ROUTES)
+    special = (["#sort.order " + order] if order else []) + (["#contigs " + ",".join(contigs)] if contigs else [])
+    ident = (["#version " + version] if version else []) + (["#annotation.spec " + annotation] if annotation else [])
+    if route in ("assembled", "assembled-ctor", "from_lines", "line_reader"):
+        lines = ident + special + extra
+        rng.shuffle(lines)
+        return {"route": route, "lines": lines}, order, contigs
+    spec = {"route": route, "version": version, "annotation": annotation, "sort_order": order,
+            "sort_as": rng.choice(["name", "object"]), "extra": extra}
+    if route == "defaults-fai":
+        if contigs:
+            spec["fai"] = contigs
+    elif contigs:
+        spec["contigs"] = contigs
+    if route == "from_reader":
+        # the source file's own header: the same or the protected layout, perhaps already carrying an order / contigs / pragmas
+        src_ann = DERIVED_FROM.get(ann, ann) if (ann and rng.random() < 0.5) else ann
+        src_sch = impl.scheme_by_annotation(src_ann) if src_ann else None
+        if src_sch is not None:
+            src = ["#version " + src_sch.version()] + ([] if src_sch.is_basic() else ["#annotation.spec " + src_ann])
+        else:
+            src = ident[:] or ["#center somewhere"]
+        src += rng.sample(EXTRA_PRAGMAS, rng.randrange(0, 3))
+        if rng.random() < 0.5:
+            src.append("#sort.order " + rng.choice(["Unsorted", "Coordinate", "BarcodesAndCoordinate"]))
+        if rng.random() < 0.3:
+            src.append("#contigs " + ",".join(rng.choice(CONTIG_LISTS)))
+        rng.shuffle(src)
+        spec["src"] = src
+        spec["extra"] = [l for l in extra if not any(x.split(" ")[0] == l.split(" ")[0] for x in src)]
+        if src_ann == ann and rng.random() < 0.5:
+            spec["version"] = spec["annotation"] = None       # nothing to override
+        if rng.random() < 0.3 and contigs:
+            spec["fai"] = spec.pop("contigs")
+    return spec, order, contigs
+
+
+def gen_located_records(rng, ann, n, contigs):
+    """Accepted lines under `ann` that are in every declared order at once: one chromosome (a member of the contig list
+    when there is one), one pair of barcodes, non-decreasing start and end."""
+    names = impl.scheme_by_annotation(ann).column_names()
+    chrom = rng.choice(contigs) if contigs else rng.choice(["chr1", "1", "X", "chr10"])
+    out, pos = [], rng.randrange(1, 1000)
+    for _ in range(n):
+        fields = colcases.valid_fields(ann, rng, prefer_nonnull=rng.choice([0.2, 0.7, 0.95]))
+        pos += rng.randrange(0, 500)
+
+        def put(name, v):
+            if name in names:
+                fields[names.index(name)] = v
+        put("Chromosome", chrom)
+        put("Start_Position", str(pos))
+        put("End_Position", str(pos + 10))
+        put("Tumor_Sample_Barcode", "TCGA-T1")
+        put("Matched_Norm_Sample_Barcode", "TCGA-N1")
+        out.append("\t".join(fields))
+    return out
+
+
+NO_SCHEME_NAME_SETS = [NO_SCHEME_NAMES, ["only"], ["a", "b"], ["c1", "c2", "c3", "c4", "c5", "c6", "c7", "c8"], ["Hugo_Symbol", "x y", "#z"]]
+NO_SCHEME_VALUES = ["", "", "a", "1", "x y", " lead", "trail ", "é", "#x", "7;8", "-", "None", " ", "0.30000000000000004"]
+
+
+def gen_rows(rng, names, n):
+    """Scheme-less rows (texts): any clean field texts; rows whose fields are all empty at any position of the file."""
+    rows = []
+    for _ in range(n):
+        k = rng.random()
+        if k < 0.25:
+            rows.append([""] * len(names))
+        elif k < 0.4:
+            rows.append([rng.choice(["", "", "", "a"]) for _ in names])
+        else:
+            rows.append([rng.choice(NO_SCHEME_VALUES) for _ in names])
+    return rows
 
 
 def eval_roundtrip(case, tmp, toucher=None):
     """One case on the implementation: write, read back, compare, write again (the property's oracle).
 
     case = {"scheme": annotation or None, "header": header lines, "lines": the generated data lines,
-            "channel": plain|gz|handle, "derived": None|"inplace"|"setitem" (header taken from a reader of the protected
-            file and edited to name `scheme`), "edits": None or the API edits per record}.
+            "channel": plain|gz|handle|ctor, "derived": None|"inplace"|"setitem" (header taken from a reader of the protected
+            file and edited to name `scheme`), "edits": None or the API edits per record,
+            optional: "header_spec" (the public route the header object is obtained by, see build_header; the pragmas that
+            must come back are the ones the object lists when it is handed to the writer), "names" (scheme-less column
+            names), "rows" (scheme-less records assembled through the API from these rows of encoded values, instead of
+            being parsed from "lines"), "read_routes" (further reader entry points the written text is read back by)}.
     `toucher` draws (run) or re-applies (replay) the API edits; case["edits"] is filled in with what was applied."""
     from maflib.header import MafHeader
     from maflib.record import MafRecord
     from maflib.validation import ValidationStringency as VS
     ann, channel, header_lines = case["scheme"], case["channel"], case["header"]
     scheme = impl.scheme_by_annotation(ann) if ann else None
-    names = None if ann else NO_SCHEME_NAMES
+    names = None if ann else (case.get("names") or NO_SCHEME_NAMES)
     mode = VS.Strict if ann else VS.Silent
-    # the records offered to the writer: parsed from generated lines; their text is what must come back
-    recs = [str(MafRecord.from_line(l, scheme=scheme, column_names=names, validation_stringency=VS.Silent))
-            for l in case["lines"]]
+    rows = case.get("rows")
+    # the records offered to the writer: parsed from generated lines (or assembled from rows); their text is what must come back
+    if rows is not None:
+        recs = [str(api_record(names, r)) for r in rows]
+    else:
+        recs = [str(MafRecord.from_line(l, scheme=scheme, column_names=names, validation_stringency=VS.Silent))
+                for l in case["lines"]]
     where = {"header": header_lines, "scheme": ann, "records": [r[:120] for r in recs], "channel": channel}
     hobj = None
+    expected_hdr = None
     if case.get("derived"):
         hobj, _lines = make_derived_header(ann, case["derived"])
         where["header"] = header_lines
         where["header_source"] = "from_reader + %s edit of annotation.spec" % case["derived"]
-    e = {"failures": [], "status": "done", "where": where, "recs": recs, "names": names, "text": None}
+    elif case.get("header_spec"):
+        hobj = build_header(case["header_spec"], tmp)
+        expected_hdr = [(k, str(hobj[k])) for k in hobj]
+        header_lines = where["header"] = [t for _k, t in expected_hdr]
+        where["header_source"] = case["header_spec"]["route"]
+    e = {"failures": [], "status": "done", "where": where, "recs": recs, "names": names, "text": None, "header_lines": header_lines}
     fails = e["failures"]
 
     def fail(**kw):
+        if not scheme and recs and names and names[0].startswith("#"):
+            # the column-name line the writer emits for this column set starts with the header line symbol
+            kw["first_column_starts_with_hash"] = True
         fails.append(dict(where, case=dict(case, edits=list(toucher.log) if toucher is not None else None), **kw))
+
+    def api_marks(j, k, got=None):
+        """Fields describing column k of offered record j when it holds an API-assigned value (recognised scheme)."""
+        if not scheme or noncanon is None or j is None or k is None or j >= len(noncanon) or noncanon[j] is None or k >= len(noncanon[j]):
+            return {}
+        name = scheme.column_names()[k] if k < len(scheme.column_names()) else None
+        m = {"column": name, "column_class": scheme.column_class(name).__name__ if name else None, "record_index": j,
+             "written_value": offered[j][1][k], "written_text": offered[j][0].split("\t")[k],
+             "api_value_not_canonical": bool(noncanon[j][k])}
+        if got is not None and j < len(got):
+            vals = [enc_val(v) for v in got[j].column_values()]
+            m["reread_value"] = vals[k] if k < len(vals) else None
+        return m
+    noncanon = offered = None
     try:
-        text, path = write_file(channel, header_lines, recs, scheme, names, mode, tmp, header_obj=hobj, touch=toucher)
+        text, path = write_file(channel, header_lines, recs, scheme, names, mode, tmp, header_obj=hobj, touch=toucher, api_rows=rows)
         if toucher is not None:
             recs = e["recs"] = [t for t, _v in write_file.last_written]
             where["records"] = [r[:120] for r in recs]
@@ -225,6 +620,35 @@ def eval_roundtrip(case, tmp, toucher=None):
             fail(what="writing failed with %s" % exc_name(x), kind="write-exception")
         return e
     e["text"] = text
+    offered = list(write_file.last_written)
+    noncanon = list(write_file.last_noncanonical)
+    if expected_hdr is None:
+        h0 = MafHeader.from_lines(header_lines, validation_stringency=VS.Silent)
+        expected_hdr = [(k, str(h0[k])) for k in h0]
+    want_cols = scheme.column_names() if scheme else (names if recs else None)
+
+    def judge(hdr, cols, got, rd, via=""):
+        if hdr != expected_hdr:
+            fail(what="header pragmas differ after the round trip" + via, kind="header", expected=expected_hdr, got=hdr)
+        if cols != want_cols:
+            fail(what="column-name line differs after the round trip" + via, kind="columns", expected=want_cols, got=cols)
+        if [str(r) for r in got] != recs:
+            j, k = diff_position(recs, [str(r) for r in got])
+            fail(what="records differ (text or order) after the round trip" + via, kind="records",
+                 expected=recs, got=[str(r) for r in got], **api_marks(j, k, got))
+        elif scheme:
+            for j, ((line, a), r) in enumerate(zip(offered, got)):
+                b = [enc_val(v) for v in r.column_values()]
+                bad = [k for k, (x, y) in enumerate(zip(a, b)) if not py_eq(x, y) and not (x.get("t") == "float" and x["v"] == "nan")]
+                if bad:
+                    k = bad[0]
+                    fail(what="typed values differ after the round trip" + via, kind="values",
+                         **dict({"column": scheme.column_names()[k], "column_class": scheme.column_class(scheme.column_names()[k]).__name__,
+                                 "record_index": j, "written_value": a[k], "written_text": line.split("\t")[k], "reread_value": b[k]},
+                                **api_marks(j, k, got)))
+                    break
+        if rd.validation_errors and mode == VS.Strict:
+            fail(what="re-reading reported validation errors" + via, kind="reread-errors")
     try:
         hdr, cols, got, rd = read_back(channel, text, path, mode)
     except Exception as x:  # noqa
@@ -232,30 +656,24 @@ def eval_roundtrip(case, tmp, toucher=None):
         fail(what="reading the written file back failed with %s" % exc_name(x), kind="read-back", text=text[:300])
         return e
     e["read"] = {"header": hdr, "columns": cols, "records": [str(r) for r in got]}
-    h0 = MafHeader.from_lines(header_lines, validation_stringency=VS.Silent)
-    if hdr != [(k, str(h0[k])) for k in h0]:
-        fail(what="header pragmas differ after the round trip", kind="header",
-             expected=[(k, str(h0[k])) for k in h0], got=hdr)
-    want_cols = scheme.column_names() if scheme else (names if recs else None)
-    if cols != want_cols:
-        fail(what="column-name line differs after the round trip", kind="columns", expected=want_cols, got=cols)
-    if [str(r) for r in got] != recs:
-        fail(what="records differ (text or order) after the round trip", kind="records",
-             expected=recs, got=[str(r) for r in got])
-    elif scheme:
-        for (line, a), r in zip(write_file.last_written, got):
-            b = [enc_val(v) for v in r.column_values()]
-            if any(not py_eq(x, y) and not (x.get("t") == "float" and x["v"] == "nan") for x, y in zip(a, b)):
-                fail(what="typed values differ after the round trip", kind="values")
-                break
-    if rd.validation_errors and mode == VS.Strict:
-        fail(what="re-reading reported validation errors", kind="reread-errors")
+    judge(hdr, cols, got, rd)
+    for route in case.get("read_routes") or []:
+        via = " (read back through reader route '%s')" % route
+        try:
+            judge(*read_back_via(route, text, tmp, mode), via=via)
+        except Exception as x:  # noqa
+            fail(what="reading the written file back failed with %s%s" % (exc_name(x), via), kind="read-back", text=text[:300])
     # writing the re-read content again is byte-identical
     try:
-        text2, _p = write_file(channel, [s for _k, s in hdr], [str(r) for r in got], scheme, names, mode, tmp)
+        if case.get("header_spec"):       # the re-read content as the reader holds it: its header object, its records
+            text2, _p = write_file(channel, None, [str(r) for r in got], scheme, cols if not scheme else None, mode, tmp, header_obj=rd.header())
+        else:
+            text2, _p = write_file(channel, [s for _k, s in hdr], [str(r) for r in got], scheme, names, mode, tmp)
         if text2 != text:
+            i, k = diff_position(text.split("\n"), text2.split("\n"))
+            n_head = len(text.split("\n")) - 1 - len(recs)          # pragma lines + the column-name line
             fail(what="writing the re-read content again is not byte-identical", kind="rewrite",
-                 first=text[:200], second=text2[:200])
+                 first=text[:200], second=text2[:200], **(api_marks(i - n_head, k, got) if i is not None and i >= n_head else {}))
     except Exception as x:  # noqa
         fail(what="re-writing failed with %s" % exc_name(x), kind="rewrite")
     return e
@@ -277,6 +695,9 @@ def run(ctx):
     out = Outcome()
     out.rule = ("headers over the pragma grammar (inner blanks, odd characters, the special keys) x recognised layouts (Strict) or scheme-less column sets (Silent) x 0-4 accepted records "
                 "(empty trailing fields, null spellings, list- and enum-valued columns) x three channels (plain path, .gz path, caller handle); write, read back, write again; "
+                "second family: the header object obtained by every public route (assembled from parsed / constructed records, from_lines, from_line_reader, from_defaults + pragmas, "
+                "from_reader + overrides; sort order and contigs anywhere) x every layout with typed API values in columns of every type (floats needing 17 digits, big integers, empty lists, "
+                "None) or scheme-less sets of 1-8 columns with parsed / API-assembled rows (all-empty rows anywhere) x four channels (+ the constructor) x further read-back routes; "
                 "non-trivial = at least one record; distinct (header, records, channel)")
     rng = ctx.rng("c02")
     reqs = []
@@ -312,6 +733,9 @@ def run(ctx):
             # correspondence: the model writes the same bytes and reads them back the same way
             if channel == "handle" and len(reqs) < ctx.scale(60, 600):
                 reqs.append((model_req(ann, header_lines, recs, e["names"]), text))
+        route_cases(ctx, out, reqs, tmp)
+        union_value_cases(ctx, out, tmp)
+        hash_column_cases(ctx, out, tmp)
     mo = ctx.driver.run([r for r, _ in reqs])
     for (r, text), m in zip(reqs, mo):
         if has_unmodelled(m):
@@ -325,6 +749,120 @@ def run(ctx):
             else:
                 out.disagreements.append({"op": "writer.run", "header": r["header_lines"], "model": (m.get("init_exc") or mt[-200:]), "impl": text[-200:]})
     return out
+
+
+def route_cases(ctx, out, reqs, tmp):
+    """The same oracle with the header reaching the writer by every public route (direct assembly from parsed or constructed
+    records, from_lines, from_line_reader, from_defaults + further pragmas, from_reader with overrides; sort order and
+    contig list in any relative position), every layout, typed values assigned through the API to columns of every type,
+    scheme-less column sets of 1-8 columns with rows parsed or assembled through the API (all-empty rows anywhere), the
+    four writer channels, and the written text read back by further reader entry points."""
+    from maflib.sort_order import Coordinate
+    rng = ctx.rng("c02-routes")
+    layouts = impl.builtin_annotations()
+    n_model = 0
+    for _ in range(ctx.scale(120, 2000)):
+        ann = rng.choice([None, None, None] + layouts[:ctx.scale(6, len(layouts))])
+        spec, _order, _contigs = gen_header_spec(rng, ann)
+        out.evaluations += 1
+        case = {"scheme": ann, "header": [], "lines": [], "channel": rng.choice(impl.WRITER_CHANNELS), "derived": None, "edits": None,
+                "header_spec": spec, "names": None, "rows": None, "read_routes": rng.sample(READ_ROUTES, rng.choice([0, 1, 1, 2]))}
+        try:
+            h = build_header(spec, tmp)
+        except Exception as x:  # noqa
+            out.failures.append({"what": "building the header failed with %s" % exc_name(x), "kind": "header-build", "scheme": ann, "case": case})
+            continue
+        ordered, contigs = isinstance(h.sort_order(), Coordinate), h.contigs()
+        n = rng.randrange(0, 5)
+        toucher = None
+        if ann:
+            case["lines"] = gen_located_records(rng, ann, n, contigs) if ordered else gen_records(rng, ann, n)
+            if rng.random() < 0.6:
+                toucher = Toucher(rng=rng, wide=impl.scheme_by_annotation(ann))
+        else:
+            names = case["names"] = rng.choice(NO_SCHEME_NAME_SETS)
+            if ordered and "Chromosome" in names:
+                n = 0          # text fields would have to be coordinates: the ordered scheme-less file is header-only
+            texts = gen_rows(rng, names, n)
+            if rng.random() < 0.5:
+                case["rows"] = [[enc_val(rng.choice([7, 0.1 + 0.2, None, 10 ** 20]) if rng.random() < 0.05 else v) for v in r] for r in texts]
+            else:
+                case["lines"] = ["\t".join(r) for r in texts]
+            if any(not any(r) for r in texts):
+                out.distribution["rows:with an all-empty row"] += 1
+        e = eval_roundtrip(case, tmp, toucher)
+        out.failures += e["failures"]
+        out.distribution["header-route:" + spec["route"]] += 1
+        if toucher is not None:
+            out.distribution["api-values assigned"] += sum(len(x) for x in toucher.log)
+        if e["text"] is None:
+            out.distribution["writer-refused"] += 1
+            continue
+        if "read" not in e:
+            continue
+        out.distribution["channel:" + case["channel"]] += 1
+        for r in case["read_routes"]:
+            out.distribution["read-route:" + r] += 1
+        if e["recs"]:
+            out.nontrivial.add(repr(e["where"]))
+        # correspondence: the model, given the pragmas the header object lists and the offered records' texts, writes the same bytes
+        if case["channel"] in ("handle", "ctor") and n_model < ctx.scale(40, 400):
+            n_model += 1
+            reqs.append((model_req(ann, e["header_lines"], e["recs"], e["names"]), e["text"]))
+
+
+UNION_TEXTS = ["1", "01", "007", "-3", "22", "0", "+5", "10"]
+
+
+def union_value_cases(ctx, out, tmp):
+    """A union-typed column (StringOrIntegerColumn / StringIntegerOrFloatColumn: Chromosome, NCBI_Build) assigned, through the
+    API, a str that the column's own parser reads as a number.  A handful of cases per run.  The oracle marks a failure on
+    such a column with api_value_not_canonical (not_canonical(): parsing the column's own text gives another value or type)."""
+    import maflib.column_types as CT
+    rng = ctx.rng("c02-api-union")
+    layouts = [a for a in impl.builtin_annotations() if a.startswith("gdc-1.0.0")][:4]
+    for _ in range(ctx.scale(4, 16)):
+        ann = rng.choice(layouts)
+        sch = impl.scheme_by_annotation(ann)
+        union = [n for n in sch.column_names() if issubclass(sch.column_class(n), (CT.StringOrIntegerColumn, CT.StringIntegerOrFloatColumn))]
+        if not union:
+            continue
+        lines = gen_records(rng, ann, rng.randrange(1, 3))
+        edits = [[[rng.choice(union), enc_val(rng.choice(UNION_TEXTS))]] if (k == 0 or rng.random() < 0.5) else [] for k in range(len(lines))]
+        case = {"scheme": ann, "header": gen_header(rng, ann), "lines": lines, "channel": rng.choice(impl.WRITER_CHANNELS), "derived": None,
+                "edits": edits, "family": "api-union"}
+        out.evaluations += 1
+        e = eval_roundtrip(case, tmp, Toucher(stored=edits))
+        out.failures += e["failures"]
+        out.distribution["family:api-union (str read as a number in a union-typed column)"] += 1
+        if e["text"] is None:
+            out.distribution["writer-refused"] += 1
+        elif e["recs"]:
+            out.nontrivial.add(repr(e["where"]))
+
+
+HASH_NAME_SETS = [["#chrom", "pos"], ["#Hugo_Symbol", "b", "c"], ["#id"], ["#a b", "c"]]
+
+
+def hash_column_cases(ctx, out, tmp):
+    """Scheme-less column sets whose FIRST column name starts with '#' (the header line symbol), 1-3 records.  A handful of
+    cases per run.  The oracle marks every failure of such a case with first_column_starts_with_hash."""
+    rng = ctx.rng("c02-hash-column")
+    for _ in range(ctx.scale(4, 16)):
+        names = rng.choice(HASH_NAME_SETS)
+        texts = gen_rows(rng, names, rng.randrange(1, 4))
+        case = {"scheme": None, "header": gen_header(rng, None), "lines": [], "channel": rng.choice(impl.WRITER_CHANNELS), "derived": None,
+                "edits": None, "names": names, "family": "hash-column"}
+        if rng.random() < 0.5:
+            case["rows"] = [[enc_val(v) for v in r] for r in texts]
+        else:
+            case["lines"] = ["\t".join(r) for r in texts]
+        out.evaluations += 1
+        e = eval_roundtrip(case, tmp, None)
+        out.failures += e["failures"]
+        out.distribution["family:hash-column (first scheme-less column name starts with '#')"] += 1
+        if e["text"] is not None and e["recs"]:
+            out.nontrivial.add(repr(e["where"]))
 
 
 def search(ctx):
@@ -347,14 +885,32 @@ def replay_case(ctx, failure):
     ann = case["scheme"]
     if ann and impl.scheme_by_annotation(ann) is None:
         return None
+    if case.get("header_spec") is not None and (not isinstance(case["header_spec"], dict) or case["header_spec"].get("route") not in HEADER_ROUTES):
+        return None
+    if case["channel"] not in impl.WRITER_CHANNELS or any(r not in READ_ROUTES for r in case.get("read_routes") or []):
+        return None
     toucher = Toucher(stored=case["edits"]) if case["edits"] is not None else None
     with tempfile.TemporaryDirectory() as tmp:
         e = eval_roundtrip(dict(case), tmp, toucher)
+    if case.get("header_spec"):
+        sp = case["header_spec"]
+        print("replay C02: header obtained by route '%s' (%s); it lists the pragmas %s" % (
+            sp["route"], _short({k: v for k, v in sp.items() if k != "route"}, 400), _short(e["header_lines"], 300)))
+        if case.get("read_routes"):
+            print("  the written text is also read back through the reader route(s) %s" % case["read_routes"])
+    if not ann:
+        print("  scheme-less column names: %s" % (e["names"],))
+    if case.get("rows") is not None:
+        print("  %d scheme-less record(s) assembled through the API (MafRecord() + MafColumnRecord per column)" % len(case["rows"]))
+    if case["edits"] is not None:
+        for k, ed in enumerate(case["edits"]):
+            for key, v in ed:
+                print("  record %d: column %s assigned the value %s through the API" % (k, key, _short(v, 120)))
     print("replay C02: %s writer (%s mode) on channel '%s', header %s%s, %d record(s) parsed from the stored lines%s"
           % (ann or "scheme-less", "Strict" if ann else "Silent", case["channel"], _short(case["header"], 200),
              " (taken from a reader of the protected file, annotation.spec edited: %s)" % case["derived"] if case["derived"] else "",
              len(case["lines"]),
-             ", %d list value(s) assigned through the API" % sum(len(x) for x in case["edits"]) if case["edits"] is not None else ""))
+             ", %d value(s) assigned through the API" % sum(len(x) for x in case["edits"]) if case["edits"] is not None else ""))
     for r in e["recs"]:
         print("  offered: %s" % _short(r, 200))
     print("  implementation: %s" % (e["status"] if e["text"] is None or "read" not in e else
@@ -363,9 +919,9 @@ def replay_case(ctx, failure):
                                        len(e["read"]["columns"]) if e["read"]["columns"] is not None else "no", len(e["read"]["records"]))))
     if e["text"] is not None:
         print("  written: %s" % _short(e["text"], 300))
-    if case["channel"] == "handle" and e["text"] is not None:
+    if case["channel"] in ("handle", "ctor") and e["text"] is not None:
         # the kind of case the module compares with the model
-        m = ctx.driver.run([model_req(ann, case["header"], e["recs"], e["names"])])[0]
+        m = ctx.driver.run([model_req(ann, e["header_lines"], e["recs"], e["names"])])[0]
         if has_unmodelled(m):
             print("  model: outside the model")
         else:
